@@ -150,8 +150,8 @@ theorem C14_null_order_uniform :
     ∀ c ∈ orderNullsTable, effectiveNullsFirst c.1 c.2.2.1 c.2.2.2 = some (!c.2.2.1) := by
   decide +kernel
 
-/-- the tables are complete: 7 dialects x 6 granularities x 3 column forms, 7 x 11 intervals (plural and singular units), 7 symmetric-aggregate rows -/
-theorem C14_tables_complete : dateTruncTable.length = 126 ∧ intervalTable.length = 77 ∧ symAggTable.length = 7 ∧
+/-- the tables are complete: 7 dialects x 6 granularities x 5 column forms (bare and qualified column, call, and two expressions that are neither a column nor parenthesised), 7 x 11 intervals (plural and singular units), 7 symmetric-aggregate rows -/
+theorem C14_tables_complete : dateTruncTable.length = 210 ∧ intervalTable.length = 77 ∧ symAggTable.length = 7 ∧
     orderNullsTable.length = 28 := by decide +kernel
 
 end SideVerif
